@@ -60,7 +60,7 @@ TInit == Init /\ l = 1 /\ bi = -1 /\ diverged = FALSE
 Reset == /\ Ev("Reset")
          /\ allow' = R.allow /\ eccv' = R.eccv /\ clen' = [c \in Contents |-> R.clen[c]]
          /\ Logged
-         /\ gen' = (0 :> 0) /\ cls' = (0 :> 1) /\ nr' = 0 /\ pend' = None /\ inner' = 0
+         /\ gen' = (0 :> 0) /\ cls' = (0 :> 1) /\ nr' = 0 /\ pend' = None /\ inner' = 0 /\ old' = [d \in Docs |-> <<>>]
          /\ want' = <<>> /\ residue' = {} /\ tainted' = {} /\ dev' = {} /\ settled' = FALSE
          /\ hist' = <<>> /\ bi' = R.beh /\ diverged' = FALSE
 ResetShape == /\ \A d \in Docs : DOMAIN tree'[d] = {} /\ cur'[d] = 0
@@ -70,7 +70,7 @@ PendOf(r) == [a |-> "pend", d |-> r.d, k |-> r.k, r |-> r.r, p |-> r.p, s |-> Sp
 Keep == UNCHANGED <<conf, hist, bi, diverged>>
 
 (* ---- pass P ---- *)
-PIds == UNCHANGED <<gen, cls, nr, inner>>
+PIds == UNCHANGED <<gen, cls, nr, inner, old>>
 PW == Ev("W") /\ Logged /\ GhostCommit(R.d, R.k, R.r, R.p, SpecOf(R.s), R.ok) /\ UNCHANGED pend /\ PIds /\ Keep
 PB == Ev("B") /\ Logged /\ GhostIdle /\ pend' = PendOf(R) /\ PIds /\ Keep
 PT == Ev("T") /\ Logged /\ GhostIdle /\ UNCHANGED pend /\ PIds /\ Keep
@@ -105,18 +105,15 @@ TreeStep(d, k, r, p) ==
   /\ \A x \in Leaves(nt) \ {r} : x \in Leaves(ot) /\ x # pr
   /\ \A x \in Leaves(ot) \ (Leaves(nt) \cup {pr}) : ot[x].d
   /\ \A x \in DOMAIN nt \ {r} : nt[x].d = ot[x].d
-(* documents the model does not describe (hit by the deviation, now or earlier) keep the other document's state as it was *)
-OthersKept(d) == /\ \A e \in Docs \ {d} : atts'[e] = atts[e] /\ rd'[e] = rd[e]
-                 /\ {b \in blob' : b[1] # d} = {b \in blob : b[1] # d}
 CCommit(r) ==
-  LET d == r.d  s == SpecOf(r.s)  dirty == d \in tainted' IN
+  LET d == r.d  s == SpecOf(r.s) IN
   /\ TreeStep(d, r.k, r.r, r.p)
   /\ DOMAIN tree'[d] \subseteq DOMAIN gen \cup {r.r}
-  /\ ImplCommit(d, r.k, r.r, r.p, s, HOf(r), tree'[d], cur'[d], dirty)
+  /\ ImplCommit(d, r.k, r.r, r.p, s, HOf(r), tree'[d], cur'[d], tainted')
   /\ cur'[d] \in WinnersOf(tree'[d], gen', cls')
-  /\ (dirty => OthersKept(d))
-CRefused == /\ \A d \in Docs : tree'[d] = tree[d] /\ cur'[d] = cur[d] /\ atts'[d] = atts[d]
-            /\ blob' = blob /\ UNCHANGED <<gen, cls>>
+Same(D) == /\ \A d \in D : tree'[d] = tree[d] /\ cur'[d] = cur[d] /\ atts'[d] = atts[d]
+CRefused == /\ Same(Docs \ tainted)
+            /\ {b \in blob' : b[1] \notin tainted} = {b \in blob : b[1] \notin tainted} /\ UNCHANGED <<gen, cls, old>>
 CKeep == UNCHANGED <<conf, hist, bi, diverged>>
 CReset == Reset /\ ResetShape
 CW == /\ ~diverged /\ Ev("W") /\ Logged /\ GhostCommit(R.d, R.k, R.r, R.p, SpecOf(R.s), R.ok)
@@ -126,13 +123,13 @@ CW == /\ ~diverged /\ Ev("W") /\ Logged /\ GhostCommit(R.d, R.k, R.r, R.p, SpecO
       /\ nr' = R.r /\ inner' = (IF pend = None THEN 0 ELSE inner + 1) /\ UNCHANGED pend /\ CKeep
 CB == /\ ~diverged /\ Ev("B") /\ Logged /\ GhostIdle /\ pend = None
       /\ Legal(R.d, R.k, R.p, SpecOf(R.s)) = TRUE
-      /\ \A d \in Docs : tree'[d] = tree[d] /\ cur'[d] = cur[d] /\ atts'[d] = atts[d]
-      /\ blob' = blob \cup Stored(R.d, SpecOf(R.s))
-      /\ pend' = PendOf(R) /\ inner' = 0 /\ nr' = R.r /\ UNCHANGED <<gen, cls>> /\ CKeep
+      /\ Same(Docs \ tainted)
+      /\ {b \in blob' : b[1] \notin tainted} = {b \in blob \cup Stored(R.d, SpecOf(R.s)) : b[1] \notin tainted}
+      /\ pend' = PendOf(R) /\ inner' = 0 /\ nr' = R.r /\ UNCHANGED <<gen, cls, old>> /\ CKeep
 CT == /\ ~diverged /\ Ev("T") /\ Logged /\ GhostIdle /\ pend # None
-      /\ \A d \in Docs : tree'[d] = tree[d] /\ cur'[d] = cur[d] /\ atts'[d] = atts[d]
-      /\ blob' = blob
-      /\ inner' = inner + 1 /\ UNCHANGED <<gen, cls, nr, pend>> /\ CKeep
+      /\ Same(Docs \ tainted)
+      /\ {b \in blob' : b[1] \notin tainted} = {b \in blob : b[1] \notin tainted}
+      /\ inner' = inner + 1 /\ UNCHANGED <<gen, cls, nr, pend, old>> /\ CKeep
 CE == /\ ~diverged /\ Ev("E") /\ Logged /\ GhostCommit(R.d, R.k, R.r, R.p, SpecOf(R.s), R.ok) /\ pend # None /\ pend = PendOf(R)
       /\ (R.d \in tainted \/ (Legal(R.d, R.k, R.p, SpecOf(R.s)) = R.ok))
       /\ IF R.ok THEN CCommit(R) ELSE CRefused
